@@ -1,5 +1,50 @@
-import BioCantor.Spec.Lift
-import BioCantor.Model.Lift
+/-
+  C04 — Lift-over through nested coordinate systems composes and preserves sequence.
+
+  Property theorems only (helper lemmas in BioCantor/Proofs/Lift*.lean).  They quantify over EVERY
+  well-formed child location, EVERY chain of ancestor levels (any depth, any mixture of strands,
+  single / multi-block / self-overlapping placements, missing placements, levels without sequence),
+  every target and every chunk window.
+-/
+import BioCantor.Proofs.LiftMain
 namespace BioCantor.Props.C04
-theorem placeholder : True := trivial
+open BioCantor BioCantor.Spec BioCantor.Model BioCantor.Proofs
+
+/-- T1+T2+T3: `lift_over_to_first_ancestor_of_type` — refused when no ancestor has the type, when a placement
+    on the way is missing, or when a position does not fit a placement; otherwise the answer has the composed
+    strand, is well formed, covers exactly the child's bases mapped through every level in between (same order
+    for non-self-overlapping directional layouts, same multiset otherwise), and — when every crossed level
+    carries sequence consistent with its placement — reads the same letters from the ancestor as the child
+    reads from its own parent. -/
+theorem lift_to_type (t : List Char) (c : Location) (ch : Chain) (hc : WF c) (hch : ChainWF ch)
+    (hcons : Consistent (ch.map toSLevel)) :
+    okLiftType t c (ch.map toSLevel) (ans (Prod.fst <$> liftToType t c ch)) = true :=
+  liftToType_ok t c ch hc hch hcons
+
+/-- the same for `lift_over_to_sequence` (which may additionally refuse non-contiguous locations) -/
+theorem lift_to_sequence (k : SeqKey) (c : Location) (ch : Chain) (hc : WF c) (hch : ChainWF ch)
+    (hcons : Consistent (ch.map toSLevel)) :
+    okLiftSeq k c (ch.map toSLevel) (ans (Prod.fst <$> liftToSeq k c ch)) = true :=
+  liftToSeq_ok k c ch hc hch hcons
+
+/-- T4: lifting a chromosome location onto a sequence chunk returns the empty location exactly when nothing
+    of it lies in the chunk; otherwise its blocks, lifted back, are exactly the non-empty clips of the
+    location's blocks by the chunk window (block structure kept), on the strand relative to the chunk's. -/
+theorem chunk_down (l : Location) (hl : WF l) (w : Blk) (wst : Strand) :
+    okChunkDown l w wst (ans (chunkDown l w wst)) = true :=
+  chunkDown_ok l hl w wst
+
+-- non-vacuity: a two-level chain with a minus-strand two-block placement and consistent sequences
+example : ChainWF [⟨['a'], ['x'], some ['T', 'C', 'A'], none⟩,
+                   ⟨['c'], ['c', 'h', 'r'], some ['A', 'A', 'T', 'G', 'A', 'C'], some (.compound ⟨[(2, 4), (4, 5)], .minus⟩)⟩] := by
+  intro l hl p hp
+  simp at hl
+  rcases hl with rfl | rfl
+  · simp at hp
+  · simp at hp; subst hp; decide
+example : Consistent ([⟨['a'], ['x'], some ['T', 'C', 'A'], none⟩,
+                       ⟨['c'], ['c', 'h', 'r'], some ['A', 'A', 'T', 'G', 'A', 'C'], some (.compound ⟨[(2, 4), (4, 5)], .minus⟩)⟩].map toSLevel) := by
+  simp [Consistent, toSLevel, readSeq, locationBases, bases, basesMinus, blkDesc, blkAsc, strandOf, locationStrand?, complACGT]
+  decide
+
 end BioCantor.Props.C04
